@@ -181,11 +181,18 @@ class ScipyGlobalOpt(BaseOptimizationLibrary):
             settings_["maxiter"] = maxsize
 
         global_optimizer = self.__NAMES_TO_FUNCTIONS[self._algo_name]
-        opt_result = global_optimizer(
-            func=self._compute_objective,
-            bounds=bounds,
-            **settings_,
-        )
+        try:
+            opt_result = global_optimizer(
+                func=self._compute_objective,
+                bounds=bounds,
+                **settings_,
+            )
+        finally:
+            if problem.constraints:
+                # Do not let the listener outlive this execution.
+                problem.database.clear_listeners(
+                    new_iter_listeners=[self._iter_callback], store_listeners=None
+                )
 
         return opt_result.message, opt_result.success
 
